@@ -127,9 +127,7 @@ func snapMem(m *Memory) (acc [][]any, data [][]int) {
 		} else if p.Access == MemoryReadWrite {
 			a = "W"
 		}
-		if a != "N" {
-			acc = append(acc, []any{k, a})
-		}
+		acc = append(acc, []any{k, a}) // present-but-inaccessible pages are reported as "N"
 		for off, b := range p.Value {
 			if b != 0 {
 				data = append(data, []int{k, off, int(b)})
